@@ -12,7 +12,9 @@ shuffle, with library-level diff/print calls (own Printer, colour on/off), quiet
 both executions must agree with each other (and, via Part A, with every other child).  The harness never resets
 anything graphtage mutated inside a history (see gsim/worker.py).  Some runs add a soak of many cheap colour calls.
 Part C (inputs are not altered): fingerprint both trees, run a comparison (diff / get_all_edits / edits+drive, quiet
-or not), optionally CANCELLED by a KeyboardInterrupt at the n-th clock read, stream write or engine step; fingerprints
+or not), optionally CANCELLED by a KeyboardInterrupt at the n-th clock read, stream write or engine step, or at an
+arbitrary function entry inside graphtage (sys.settrace 'call' events - the points where CPython really delivers
+asynchronous exceptions; the point is a fraction of the comparison's own length); fingerprints
 must be unchanged and the next complete comparison must render byte-identically to the reference.
 """
 import json
@@ -26,13 +28,14 @@ import tempfile
 from .. import core, gen, sched
 from ..core import EventLog, Streams, Violation
 from ..driver import result, ddmin_list
-from ..seams import SEAMS, Cancel, NO_CANCEL
+from ..seams import SEAMS, Cancel, NO_CANCEL, LineCancel
 from .c05 import hygiene, render, P0
 
 FORMATS = ["json", "json", "json5", "yaml", "plist", "xml", "html", "csv"]
 EXT = {"json": ".json", "json5": ".json5", "yaml": ".yaml", "xml": ".xml", "html": ".html", "plist": ".plist",
        "csv": ".csv"}
 ARCH = platform.machine()
+GRAPHTAGE_DIR = os.path.join(core.REPO, "graphtage") + os.sep
 HAVE_SETARCH = shutil.which("setarch") is not None
 
 
@@ -125,7 +128,7 @@ class C07:
                                 "cancellation (KeyboardInterrupt at the n-th clock read / stream write / engine step)"],
                   "stubbed": ["tqdm monitor thread (disabled)"]}
     PROBES = ["children_started", "aslr_off_child", "heap_shift_child", "repeat_in_process", "colour_item",
-              "none_strategy_item", "soak_history", "cancel_fired_clock", "cancel_fired_write", "cancel_fired_step",
+              "none_strategy_item", "soak_history", "cancel_fired_clock", "cancel_fired_write", "cancel_fired_step", "cancel_fired_line",
               "purity_sessions", "lib_call_interleaved", "stdin_item"]
 
     # ------------------------------------------------------------------ generation
@@ -169,10 +172,19 @@ class C07:
                  "heap_shift": env.choice([0, 12345]), "order": env.getrandbits(30)}]
         purity = []
         for _ in range(30):
-            seam = fs.choice([None, "clock", "write", "step", "step"])
-            purity.append({"wl": sched.gen_workload(w), "mode": fs.choice(["diff", "get_all_edits", "edits_drive"]),
+            seam = fs.choice([None, "clock", "write", "step", "step", "line", "line", "line", "line"])
+            if seam is None:
+                cancel = None
+            elif seam == "line":
+                # an arbitrary point: a fraction of the comparison's own length in executed graphtage lines,
+                # biased towards the beginning (the copy phase of diff()) and the very end
+                cancel = {"seam": "line", "frac": fs.choice([fs.random() * 0.15, fs.random() * 0.15, fs.random(),
+                                                             fs.random(), 1.0 - fs.random() * 0.02])}
+            else:
+                cancel = {"seam": seam, "at": fs.choice([1, 2, 3, 5, 8, 13, 30])}
+            purity.append({"wl": sched.gen_workload(w), "mode": fs.choice(["diff", "diff", "get_all_edits", "edits_drive"]),
                            "quiet": fs.random() < 0.4, "clock": fs.choice(["frozen", "0.2s", "3s"]),
-                           "cancel": None if seam is None else {"seam": seam, "at": fs.choice([1, 2, 3, 5, 8, 13, 30])}})
+                           "cancel": cancel})
         return {"items": items, "lib_docs": lib_docs, "history": hist, "envs": envs, "soak": soak, "purity": purity}
 
     # ------------------------------------------------------------------ children
@@ -345,10 +357,37 @@ class C07:
             log.add("purity-ref-failed", core.graphtage_site(e))
             counters["purity_reference_failed"] = counters.get("purity_reference_failed", 0) + 1
             return   # fails without any cancellation: some other property's business
+        def compare(a, b):
+            if ps["mode"] == "diff":
+                a.diff(b)
+            elif ps["mode"] == "get_all_edits":
+                for e in a.get_all_edits(b):
+                    e.bounds()
+            else:
+                e = a.edits(b)
+                while e.valid and not e.is_complete() and e.tighten_bounds():
+                    e.bounds()
+        line_cancel = None
+        if ps["cancel"] and ps["cancel"]["seam"] == "line":
+            # dry run on fresh trees: how many cancellation points does this comparison have?
+            hygiene()
+            P0.quiet = bool(ps["quiet"])
+            SEAMS.clock.configure(ps["clock"])
+            fd, td = sched.build_pair(wl)
+            counter = LineCancel(GRAPHTAGE_DIR)
+            try:
+                with counter:
+                    compare(fd, td)
+            except core.RunTimeout:
+                raise
+            except Exception as e:
+                if "outside-graphtage" in core.graphtage_site(e):
+                    raise
+            line_cancel = LineCancel(GRAPHTAGE_DIR, at=max(1, int(ps["cancel"]["frac"] * counter.count)))
         f, t = sched.build_pair(wl)
         fp0 = (sched.fingerprint(f), sched.fingerprint(t))
         cancel = NO_CANCEL
-        if ps["cancel"]:
+        if ps["cancel"] and line_cancel is None:
             cancel = Cancel(ps["cancel"]["seam"], ps["cancel"]["at"])
         hygiene()
         P0.quiet = bool(ps["quiet"])
@@ -359,15 +398,11 @@ class C07:
             sched.MON = StepCancel(cancel)
         outcome = "completed"
         try:
-            if ps["mode"] == "diff":
-                f.diff(t)
-            elif ps["mode"] == "get_all_edits":
-                for e in f.get_all_edits(t):
-                    e.bounds()
+            if line_cancel is not None:
+                with line_cancel:
+                    compare(f, t)
             else:
-                e = f.edits(t)
-                while e.valid and not e.is_complete() and e.tighten_bounds():
-                    e.bounds()
+                compare(f, t)
         except KeyboardInterrupt:
             outcome = "cancelled"
         except core.RunTimeout:
@@ -380,9 +415,14 @@ class C07:
             SEAMS.clock.cancel = NO_CANCEL
             SEAMS.err.cancel = NO_CANCEL
             sched.MON = None
+        if line_cancel is not None:
+            cancel = line_cancel
         if cancel.fired:
             counters["fault.cancel_" + cancel.seam] = counters.get("fault.cancel_" + cancel.seam, 0) + 1
             counters["probe.cancel_fired_" + cancel.seam] = counters.get("probe.cancel_fired_" + cancel.seam, 0) + 1
+            if line_cancel is not None and line_cancel.where:
+                k = "cancelled_in." + line_cancel.where
+                counters[k] = counters.get(k, 0) + 1
         log.add("purity", ps["mode"], ps["quiet"], ps["cancel"], outcome)
         fp1 = (sched.fingerprint(f), sched.fingerprint(t))
         if fp1 != fp0:
